@@ -400,9 +400,10 @@ pub fn image_calls(ctx: &Ctx) {
     let n = 1 + ctx.pick("calls", 3);
     let mut calls = Vec::new();
     for _ in 0..n {
-        calls.push((ctx.pick("representation", 4), ctx.pick("mask", 2) == 1));
+        // 0..3 a representation, 4 an early finalize() of the image writer
+        calls.push((ctx.pick("representation", 5), ctx.pick("mask", 2) == 1));
     }
-    ctx.describe(|| format!("one image: {:?} then finalize", calls.iter().map(|(k, m)| format!("{}{}", ["visual", "pinhole", "spherical", "cylindrical"][*k], if *m { "+mask" } else { "" })).collect::<Vec<_>>()));
+    ctx.describe(|| format!("one image: {:?} then finalize", calls.iter().map(|(k, m)| format!("{}{}", ["visual", "pinhole", "spherical", "cylindrical", "finalize()"][*k], if *m && *k < 4 { "+mask" } else { "" })).collect::<Vec<_>>()));
     let res = guarded(|| -> Result<(Vec<u8>, m::Image, Vec<String>), String> {
         let es = |c: &str, e: e57::Error| format!("{c}: {}", err_string(&e));
         let dev = Dev::empty();
@@ -412,7 +413,21 @@ pub fn image_calls(ctx: &Ctx) {
         let mut problems = Vec::new();
         {
             let mut iw = w.add_image("img").map_err(|e| es("add_image", e))?;
+            let mut finalized = false;
             for (ci, (kind, mask)) in calls.iter().enumerate() {
+                if *kind == 4 {
+                    // finalize is accepted exactly once, and only for an image that has something to
+                    // show; a refused finalize changes nothing
+                    let may = !finalized && (exp.visual.is_some() || exp.projection.is_some());
+                    let r = iw.finalize();
+                    match (r.is_ok(), may) {
+                        (true, true) => finalized = true,
+                        (false, false) => {}
+                        (true, false) => problems.push(format!("call #{ci}: finalize() of an image {} was accepted", if finalized { "that is already finalized" } else { "without any representation" })),
+                        (false, true) => problems.push(format!("call #{ci}: finalize() of a complete image was refused ({})", r.err().map(|e| err_string(&e)).unwrap_or_default())),
+                    }
+                    continue;
+                }
                 let src = image(*kind, *mask, 20 + 7 * ci, 40 + ci as u64);
                 let rep = if *kind == 0 { src.visual.clone().unwrap() } else { src.projection.clone().unwrap() };
                 let mut d = Src::new(rep.blob.data.clone());
@@ -429,7 +444,7 @@ pub fn image_calls(ctx: &Ctx) {
                         iw.add_cylindrical(fmt_to_e57(&rep.format), &mut d, e57::CylindricalImageProperties { width: wd, height: ht, radius: *radius, principal_y: *ppy, pixel_width: *pw, pixel_height: *ph }, mk)
                     }
                 };
-                let slot_free = if *kind == 0 { exp.visual.is_none() } else { exp.projection.is_none() };
+                let slot_free = !finalized && if *kind == 0 { exp.visual.is_none() } else { exp.projection.is_none() };
                 match (r.is_ok(), slot_free) {
                     (true, true) => {
                         if *kind == 0 {
@@ -439,14 +454,27 @@ pub fn image_calls(ctx: &Ctx) {
                         }
                     }
                     (false, false) => {}
-                    (true, false) => problems.push(format!("call #{ci} was accepted although the image already has a {}", if *kind == 0 { "visual reference" } else { "projection" })),
+                    (true, false) => problems.push(format!("call #{ci} was accepted although the image {}", if finalized { "was already finalized: its data is written but never listed".to_string() } else { format!("already has a {}", if *kind == 0 { "visual reference" } else { "projection" }) })),
                     (false, true) => problems.push(format!("call #{ci} was refused ({}) although its slot is empty", r.err().map(|e| err_string(&e)).unwrap_or_default())),
                 }
             }
-            iw.finalize().map_err(|e| es("image.finalize", e))?;
+            if !finalized {
+                let may = exp.visual.is_some() || exp.projection.is_some();
+                let r = iw.finalize();
+                match (r, may) {
+                    (Ok(()), true) => finalized = true,
+                    (Err(_), false) => {}
+                    (Ok(()), false) => problems.push("the final finalize() of an image without any representation was accepted".into()),
+                    (Err(e), true) => return Err(es("image.finalize", e)),
+                }
+            }
+            let _ = finalized;
         }
         w.finalize().map_err(|e| es("finalize", e))?;
         drop(w);
+        if exp.visual.is_none() && exp.projection.is_none() {
+            exp.guid = None; // marks "no image in the file"
+        }
         Ok((h.snapshot(), exp, problems))
     });
     let (bytes, exp, problems) = match res {
@@ -467,7 +495,9 @@ pub fn image_calls(ctx: &Ctx) {
     match guarded(|| read_back(bytes.clone())) {
         Ok(Ok(rb)) => {
             let mut e = m::Scene { guid: "g".into(), format_name: rb.scene.format_name.clone(), library_version: rb.scene.library_version.clone(), version: (1, 0), ..Default::default() };
-            e.images.push(exp);
+            if exp.guid.is_some() {
+                e.images.push(exp);
+            }
             let d = m::diff_scene(&e, &rb.scene, false, false);
             if !d.is_empty() {
                 ctx.violation(format!("{P}/diff/{}", diff_class(&d[0])), format!("{}; calls {calls:?}", d.join(" || ")));
